@@ -106,6 +106,9 @@ impl Follower for Builder {
             Entry::Occupied(occupied) => {
                 let sid = *self.stack.last().expect("last on stack");
                 let (rnum, tid) = occupied.remove_entry();
+                let bonded = sid == tid || self.graph[sid].edges.iter().any(|edge| {
+                    edge.target == Target::Id(tid)
+                });
                 let edge = self.graph[tid].edges.iter_mut().find(|edge| {
                     if let Target::Rnum(_, _, test) = &edge.target {
                         test == &rnum
@@ -114,14 +117,14 @@ impl Follower for Builder {
                     }
                 }).expect("edge for rnum");
 
-                match reconcile(edge.kind.clone(), bond_kind) {
-                    Some((left, right)) => {
+                match (bonded, reconcile(edge.kind.clone(), bond_kind)) {
+                    (false, Some((left, right))) => {
                         edge.target = Target::Id(sid);
                         edge.kind = left;
 
                         self.graph[sid].add_edge(right, Target::Id(tid))
                     },
-                    None => self.errors.push(Error::Join(sid, tid))
+                    _ => self.errors.push(Error::Join(sid, tid))
                 }
             },
             Entry::Vacant(vacant) => {
